@@ -14,6 +14,7 @@
 #include <dirent.h>
 #include <sys/stat.h>
 #include <unistd.h>
+#include <pthread.h>
 #include <algorithm>
 #include <fstream>
 #include <sstream>
@@ -570,7 +571,11 @@ uint64_t topo_digest(hwloc_topology_t t) {
 
 // ------------------------------------------------------------------------------------ tasks
 struct POp { int kind; uint64_t a, b, c; const Op *op; };   // pre-decoded: tasks do not parse plan text
-enum { B_NEW = 100, B_MOD, B_EXPORT, B_CONSULT, B_DUP, B_DESTROY };
+enum { B_NEW = 100, B_MOD, B_EXPORT, B_CONSULT, B_DUP, B_DESTROY, B_LOCKPAIR };
+
+// never generated: only hand-written plans use it, to demonstrate that the scheduler reports a deadlock instead of hanging
+pthread_mutex_t g_demo_mutex[2] = {PTHREAD_MUTEX_INITIALIZER, PTHREAD_MUTEX_INITIALIZER};
+volatile unsigned g_demo_counter[2];
 
 struct TaskCtx {
   int id = 0;
@@ -579,7 +584,7 @@ struct TaskCtx {
   std::vector<POp> ops;
   std::vector<uint64_t> dig;             // one digest per op
   TopoState own;                         // workload B
-  std::string scratch;
+  std::string xmlpath;                   // private scratch file of the task
 };
 
 uint64_t run_b_op(TaskCtx &c, const POp &p) {
@@ -597,7 +602,7 @@ uint64_t run_b_op(TaskCtx &c, const POp &p) {
         case 0: case 1: d.u(c17_rd_xmlbuf(ts.t, p.a >> 2, 0, 0)); break;
         case 2: d.u(c17_rd_synth(ts.t, p.b, 1, 0)); break;
         default: {   // to a file in the task's scratch area, then load it back and compare
-          std::string path = c.scratch + "/t" + std::to_string(c.id) + ".xml";
+          const std::string &path = c.xmlpath;   // built by the main task: no path-length dependent work inside the phase
           int rc = hwloc_topology_export_xml(ts.t, path.c_str(), 0); d.err(rc);
           if (!rc) {
             hwloc_topology_t t2 = nullptr;
@@ -620,6 +625,13 @@ uint64_t run_b_op(TaskCtx &c, const POp &p) {
       break;
     }
     case B_DESTROY: if (ts.t) { hwloc_topology_destroy(ts.t); ts.t = nullptr; d.u(1); } break;
+    case B_LOCKPAIR: {
+      int first = (int)(p.a & 1);
+      pthread_mutex_lock(&g_demo_mutex[first]); for (int k = 0; k < 50; k++) g_demo_counter[first] = g_demo_counter[first] + 1;
+      pthread_mutex_lock(&g_demo_mutex[!first]); g_demo_counter[!first] = g_demo_counter[!first] + 1;
+      pthread_mutex_unlock(&g_demo_mutex[!first]); pthread_mutex_unlock(&g_demo_mutex[first]); d.u(1);
+      break;
+    }
     default: break;
   }
   return d.h;
@@ -816,7 +828,7 @@ struct SchedMachine : Machine {
     Env env; env.data = dataroot;
     auto want_buf = [&](const std::string &f) { if (!env.xmlbuf.count(f)) env.xmlbuf[f] = read_file(dataroot + "/xml/" + f); };
     std::vector<TaskCtx> tc(T);
-    for (int i = 0; i < T; i++) { tc[i].id = i; tc[i].env = &env; tc[i].scratch = scratch_dir(); }
+    for (int i = 0; i < T; i++) { tc[i].id = i; tc[i].env = &env; tc[i].xmlpath = std::string(scratch_dir()) + "/t" + std::to_string(i) + ".xml"; }
     r.count(wlA ? "probe.workloadA_runs" : "probe.workloadB_runs");
     uint64_t srchash = 0;
 
@@ -854,7 +866,7 @@ struct SchedMachine : Machine {
       report_phase(r, res, selftest, "A (shared readers)");
       uint64_t lazy_ops = 0; for (auto &c : tc) for (auto &po : c.ops) { r.nops++; if (RD[po.kind].lazy) lazy_ops++; }
       if (selftest) { r.ev("selftest"); hwloc_topology_destroy(ts.t); return; }
-      if (ts.invalidating) r.count("probe.lazy_cache_queries_after_refresh", lazy_ops);
+      if (ts.invalidating) r.count("probe.lazy_refresh_branch_not_taken", lazy_ops);
       // single-threaded replay on the same topology: same answers, topology untouched
       r.curop = "replayA";
       for (int i = 0; i < T; i++) {
@@ -898,6 +910,7 @@ struct SchedMachine : Machine {
       else if (k == "consult") po.kind = B_CONSULT;
       else if (k == "dup") po.kind = B_DUP;
       else if (k == "destroy") po.kind = B_DESTROY;
+      else if (k == "lockpair") po.kind = B_LOCKPAIR;
       else continue;
       tc[(size_t)(op.u("t") % (uint64_t)T)].ops.push_back(po);
     }
